@@ -52,6 +52,7 @@ CATALOGUE = {
     "icox": {"kind": "mesh", "mesh": "ico", "params": {}, "variant": 1, "prov": "vertices_xyz", "dialect": {"xyz_scale": 6371.0}},
     "cap": {"kind": "mesh", "mesh": "cap", "params": {}, "prov": "topology", "dialect": {"extra": ["node_xyz"], "xyz_scale": 2.0}},
 }
+SOURCE_WEIGHT = {"mpas": 3, "mpasd": 2, "mixe": 2, "mixr": 2, "qh": 2}
 GEO = {  # per-source geographic menus
     "qh": {"boxes": [((-0.2, 0.3), (-0.2, 0.2)), ((-0.05, 0.4), (-0.3, 0.05))], "centers": [(0.0, 0.0), (0.3, 0.2)], "radii": [0.15, 0.4], "lats": [0.0, 0.1, -0.2]},
 }
@@ -252,7 +253,9 @@ class History(Profile):
                 prev = chosen[rng.randrange(len(chosen))]
                 chosen.append({"band": "band2", "band2": "band"}.get(prev, prev))
             else:
-                chosen.append(rng.choice(sids))
+                # sources that ship their own derived tables are where inherited-vs-derived state
+                # can differ: draw them more often
+                chosen.append(rng.choices(sids, weights=[SOURCE_WEIGHT.get(x, 1) for x in sids])[0])
         handles = [f"g{i}" for i in range(n_grids)]
         menus = {sid: menu(sid) for sid in set(chosen)}
         # swarm: enabled classes
